@@ -193,6 +193,40 @@ def generate(rng, tier, run):
             ops.append(['parse', ci, d2, tolerant, ['general', 'nocomments-in-math']])
             if rng.random() < 0.7:
                 ops.append(['parse', ci, d2, tolerant, ['general']])
+        elif x < 0.652 and docgen.base_kind(recipes[ci]) in ('K1', 'K2'):
+            # pairs of documents that use one spec object in two different ways
+            fam = rng.randrange(3)
+            if fam == 0:
+                # the same inner environment inside two different outer environments that extend
+                # the context (the delta objects live on the spec objects)
+                inner = rng.choice(['\\begin{xs}\\step[x]{mix}\\xam{p}{q}\\end{xs}',
+                                    '\\begin{xs}[o]\\xam[t]{u}{v} \\xbm{c}{d}\\end{xs}'])
+                outers = ['xa', 'xb']
+                rng.shuffle(outers)
+                for o in outers:
+                    ops.append(['parse', ci, 'a \\begin{%s}%s\\end{%s} b' % (o, inner, o), tolerant, ['general']])
+            elif fam == 1:
+                # an environment whose body parser depends on the arguments of the occurrence
+                body = rng.choice(['\\mb{x} $y$ %c\n', '\\mv{a{b}} z', 'plain'])
+                pair = ['\\begin{snip}[raw]%s\\end{snip}' % body, '\\begin{snip}%s\\end{snip} t' % body]
+                rng.shuffle(pair)
+                for d3 in pair:
+                    ops.append(['parse', ci, d3, tolerant, ['general']])
+            else:
+                # specs built by the helper constructors, declared differently in two recipes
+                other = ['K2'] if docgen.base_kind(recipes[ci]) == 'K1' else ['K1']
+                cj = None
+                for j, r in enumerate(recipes):
+                    if r == other:
+                        cj = j
+                if cj is None and len(recipes) < MAX_CTX:
+                    ops.append(['mkctx', other])
+                    recipes.append(other)
+                    cj = len(recipes) - 1
+                d3 = rng.choice(['\\begin{se}[o]{m}a_b % e\n\\end{se}', '\\begin{se}{m}$x$ y\\end{se}', '\\smm*[o]{a}{b}'])
+                ops.append(['parse', ci, d3, tolerant, ['general']])
+                if cj is not None:
+                    ops.append(['parse', cj, d3, tolerant, ['general']])
         elif x < 0.655:
             # an argument that is looked for but not there (after skipped comments / white space),
             # then a document in which the next argument is missing altogether
@@ -209,7 +243,15 @@ def generate(rng, tier, run):
         elif x < 0.66:
             ops.append(['parse', ci, docgen.token_soup(rng), tolerant, ['general']])
         elif x < 0.70:
-            ops.append(['parse', ci, docgen.faulty_variant(rng, doc), tolerant, ['general']])
+            bad = docgen.faulty_variant(rng, doc)
+            ops.append(['parse', ci, bad, tolerant, ['general']])
+            if rng.random() < 0.5:
+                # the same text again, by a walker that reports positions with other offsets
+                fl = rng.choice([{'line_number_offset': 10}, {'first_line_column_offset': 4},
+                                 {'column_offset': 2, 'line_number_offset': 3}, {}])
+                ops.append(['parse', ci, bad, False, ['general'], fl])
+                if rng.random() < 0.5:
+                    ops.append(['parse', ci, bad, False, ['general']])
         else:
             ops.append(['parse', ci, doc, tolerant, ['general']])
     return {'batch': batch, 'ops': ops}
@@ -218,8 +260,10 @@ def generate(rng, tier, run):
 # --------------------------------------------------------------------------
 # executing one operation against a context object (history and reference)
 
-def _walker(ctx, recipe_kind, doc, tolerant, custom=None):
+def _walker(ctx, recipe_kind, doc, tolerant, custom=None, flags=None):
     kw = {'tolerant_parsing': tolerant}
+    if flags:
+        kw.update(flags)                 # line_number_offset, first_line_column_offset, column_offset
     if custom:
         kw['sim_custom'] = custom        # a walker subclass with its own parsing-state event handler
     if recipe_kind == 'KD':
@@ -252,9 +296,9 @@ def _guarded(fn):
 KEEP = {'on': False, 'items': []}     # history process only: results kept alive for a final re-dump
 
 
-def parse_general(ctx, kind, doc, tolerant, clock=None, custom=None):
+def parse_general(ctx, kind, doc, tolerant, clock=None, custom=None, flags=None):
     from pylatexenc.latexnodes.parsers import LatexGeneralNodesParser
-    w = _walker(ctx, kind, doc, tolerant, custom)
+    w = _walker(ctx, kind, doc, tolerant, custom, flags)
 
     def go():
         nodes, delta = w.parse_content(LatexGeneralNodesParser())
@@ -271,10 +315,11 @@ def parse_general(ctx, kind, doc, tolerant, clock=None, custom=None):
 def do_op(ctx, kind, op, clock=None):
     """Execute a parse / parse_nested operation; returns the canonical dump."""
     if op[0] == 'parse':
-        _, _, doc, tolerant, entry = op
+        doc, tolerant, entry = op[2], op[3], op[4]
+        flags = op[5] if len(op) > 5 else None
         if entry[0] == 'general':
-            return parse_general(ctx, kind, doc, tolerant, clock, entry[1] if len(entry) > 1 else None)
-        w = _walker(ctx, kind, doc, tolerant)
+            return parse_general(ctx, kind, doc, tolerant, clock, entry[1] if len(entry) > 1 else None, flags)
+        w = _walker(ctx, kind, doc, tolerant, None, flags)
         if entry[0] == 'legacy':
             def go():
                 r = w.get_latex_nodes(pos=entry[1])
